@@ -164,6 +164,17 @@ Theorem C09_placement_histories : forall s ops, wf s -> sclean s = true -> foral
 Proof. exact placement_history. Qed.
 Print Assumptions C09_placement_histories.
 
+(* histories with EVERY kind of statement (new / copied / appended / removed / reordered cells, flips, edits of
+   VOL U LAT FILL anywhere, importance.<particle> = / del / importance.all): if importances are only edited on
+   cells whose trees are plain (every cell made by Cell(), every cell whose importances came from one-particle data
+   cards: [safe_op], decided along the history by [all_safe]), the structural part of [clean] is an invariant
+   (induction over the operation list), so the final state is written exactly once unless MontePy refuses it
+   (ParticleTypeNotInCell / Fill with a transform in the data block) *)
+Theorem C09_safe_histories : forall s ops, wf s -> sstruct s = true -> all_safe s ops = true ->
+  imp_data_ok (run_ops s ops) = true -> fill_ok (run_ops s ops) = true -> exactly_once (run_ops s ops).
+Proof. exact safe_history. Qed.
+Print Assumptions C09_safe_histories.
+
 (* ---------------------------------------------------------------- 5. either block means the same *)
 (* [denote f]: the meaning of a file by MCNP's rule, written without reference to MontePy — for cell i and class k
    the value on the cell card, else the i-th entry of the data-block vector if it is not a jump, else the default
@@ -241,6 +252,17 @@ Example C09_ex_new_cell :
   clean (run_ops s_ex [ONew 9; OSetImp TScratch n 2; OSetImp TScratch p 2; OAppend]) = true /\
   clean (run_ops s_ex [ONew 9; OAppend; OSetImp (TCell 9) p 2; OSetImp (TCell 9) n 3; OSetVol (TCell 9) 4; ODelVol (TCell 1)]) = true.
 Proof. split; vm_compute; reflexivity. Qed.
+
+(* a history the safe-history theorem covers: a new cell gets its importances after it was appended, a volume is
+   set and another deleted on cells that were read, cells are reordered, placements flipped *)
+Definition ops_safe : list op :=
+  [ONew 9; OAppend; OSetImp (TCell 9) p 2; OSetImp (TCell 9) n 3; OSetAll (TCell 9) 4; OSetVol (TCell 2) 6;
+   ODelVol (TCell 1); OSetU (TCell 9) 7; OReorder [9; 5; 2; 1]; OFlip CImp false; OFlip CVol false; OFlip CU true].
+Example C09_ex_safe_history :
+  sstruct s_ex = true /\ all_safe s_ex ops_safe = true /\
+  imp_data_ok (run_ops s_ex ops_safe) = true /\ fill_ok (run_ops s_ex ops_safe) = true /\
+  map c_num (s_cells (run_ops s_ex ops_safe)) = [9; 5; 2; 1].
+Proof. repeat split; vm_compute; reflexivity. Qed.
 
 (* the two documented refusals (no file is produced; side conditions imp_data_ok / fill_ok) *)
 Example C09_refusal_particle_not_in_cell :
